@@ -27,6 +27,15 @@ func init() {
 					jobs = append(jobs, Job{Harness: "VX_C08_new", Params: P("types", ts, "L", itoa(L), "cfg", cfg)})
 				}
 			}
+			for _, ts := range []string{"int", "string,int", "enum,bool", "float,string"} {
+				jobs = append(jobs, Job{Harness: "VX_C08_new", Params: P("types", ts, "L", itoa(L), "cfg", "enum_nonstring")})
+			}
+			for _, sd := range []string{"shared", "plain"} {
+				for _, ts := range []string{"string", "enum"} {
+					jobs = append(jobs, Job{Harness: "VX_C08_new", Params: P("types", ts, "L", "3", "cfg", "none", "sdata", sd)})
+				}
+				jobs = append(jobs, Job{Harness: "VX_C08_new", Params: P("types", "string,int", "L", itoa(L), "cfg", "order_rev", "sdata", sd)})
+			}
 			jobs = append(jobs, Job{Harness: "VX_C08_const"}, Job{Harness: "VX_C08_enum_empty"})
 			for n := 0; n <= 3; n++ {
 				jobs = append(jobs, Job{Harness: "VX_C08_name", Params: P("len", itoa(n))})
@@ -224,6 +233,7 @@ func c04jobs(harness string, tier string) []Job {
 	jobs = append(jobs, Job{Harness: "VX_C04_table", Params: P("n", "7", "conc", "5", "hash", "ident"), MaxPaths: 300000})
 	jobs = append(jobs, Job{Harness: "VX_C04_table", Params: P("n", "7", "conc", "5", "hash", "ident", "stride", "8"), MaxPaths: 300000})
 	jobs = append(jobs, Job{Harness: "VX_C04_table", Params: P("n", "7", "conc", "5", "hash", "ident", "stride", "16"), MaxPaths: 300000})
+	jobs = append(jobs, c04bigJobs(tier, false)...)
 	if tier == "thorough" {
 		jobs = append(jobs, Job{Harness: "VX_C04_table", Params: P("n", "6", "conc", "5", "hash", "uf"), MaxPaths: 1000000})
 		jobs = append(jobs, Job{Harness: "VX_C04_table", Params: P("n", "8", "conc", "5", "hash", "ident"), MaxPaths: 1000000})
@@ -236,6 +246,23 @@ func c04jobs(harness string, tier string) []Job {
 		}
 		jobs = append(jobs, Job{Harness: harness, Params: P("types", "bool", "n", an, "null", "false", "ix", "any", "agg", "all", "cols", "given", "slots", "0", "kconc", "1"), MaxPaths: 200000})
 		jobs = append(jobs, Job{Harness: harness, Params: P("types", "", "n", "3", "null", "false", "ix", "any", "agg", "all", "cols", "given", "slots", "017")})
+	}
+	return jobs
+}
+
+// c04bigJobs: groupings at the sizes where size-dependent strategies start (64-slot initial table from 128 rows)
+func c04bigJobs(tier string, strict bool) []Job {
+	var jobs []Job
+	sizes := [][3]string{{"130", "20", "13"}}
+	if tier == "thorough" {
+		sizes = append(sizes, [3]string{"127", "20", "13"}, [3]string{"260", "40", "9"}, [3]string{"130", "2", "70"})
+	}
+	for _, sz := range sizes {
+		p := P("n", sz[0], "m1", sz[1], "m2", sz[2])
+		if strict {
+			p["strict"] = "1"
+		}
+		jobs = append(jobs, Job{Harness: "VX_C04_table_big", Params: p})
 	}
 	return jobs
 }
@@ -502,7 +529,7 @@ func init() {
 }
 
 func init() {
-	c10cases := []string{"filter_unknown_col", "filter_unknown_cmp_int", "filter_unknown_cmp_float", "filter_unknown_cmp_bool", "filter_unknown_cmp_string", "filter_unknown_cmp_enum", "filter_cmp_not_string", "filter_fn_wrong_type_int", "filter_fn_wrong_type_string", "filter_fn_wrong_type_enum", "filter_arg_wrong_type_int", "filter_arg_wrong_type_float", "filter_arg_int_for_float", "filter_arg_nan", "filter_arg_wrong_type_bool", "filter_arg_wrong_type_string", "filter_arg_wrong_type_enum", "filter_arg_struct", "filter_arg_nil_cmp_lt", "filter_arg_mixed_list", "filter_arg_list_for_lt", "filter_unknown_arg_col", "filter_arg_col_type_mismatch", "filter_arg_col_type_mismatch2", "filter_fn2_without_col", "filter_enum_unknown_value", "filter_bad_regex", "filter_bad_regex_enum", "and_empty", "or_empty", "not_invalid", "nested_invalid", "inverse_invalid", "sort_unknown", "select_unknown", "slice_bad", "copy_unknown", "copy_self_unknown", "apply_copy_self_unknown", "eval_val_unknown_self", "or_all_rows_then_invalid", "or_complement_then_invalid", "and_none_then_invalid", "empty_frame_invalid_filter", "empty_frame_invalid_apply", "empty_frame_invalid_sort", "copy_badname", "apply_unknown_src", "apply_unknown_src2", "apply_fn_wrong_type", "apply_fn_wrong_type_string", "apply_fn_wrong_type_enum", "apply_fn0_invalid", "apply_fn0_func_wrong", "apply_fn2_mismatched_cols", "apply_fn2_wrong_fn", "apply_fn2_mismatched_string_enum", "apply_unknown_builtin", "apply_unknown_builtin_int", "apply_unknown_builtin2", "apply_bad_dst", "apply_empty_dst", "apply_copy_unknown", "filteredapply_invalid_clause", "filteredapply_invalid_instr", "eval_unknown_fn", "eval_bad_dst", "distinct_unknown", "rownums_bad_name", "groupby_unknown", "empty_frame_groupby_unknown", "empty_frame_distinct_unknown", "empty_frame_groupby_unknown_agg", "filter_bad_regex_twice", "filter_bad_regex_twice_ilike", "apply_second_after_failed_first", "filteredapply_second_after_failed_first", "new_enum_on_int_column", "new_enum_on_const_bool", "aggregate_unknown_col", "aggregate_unknown_fn", "aggregate_fn_wrong_type", "aggregate_fn_wrong_type_string", "aggregate_fn_wrong_type_enum", "aggregate_on_group_col", "aggregate_duplicate", "aggregate_string_builtin"}
+	c10cases := []string{"filter_unknown_col", "filter_unknown_cmp_int", "filter_unknown_cmp_float", "filter_unknown_cmp_bool", "filter_unknown_cmp_string", "filter_unknown_cmp_enum", "filter_cmp_not_string", "filter_fn_wrong_type_int", "filter_fn_wrong_type_string", "filter_fn_wrong_type_enum", "filter_arg_wrong_type_int", "filter_arg_wrong_type_float", "filter_arg_int_for_float", "filter_arg_nan", "filter_arg_wrong_type_bool", "filter_arg_wrong_type_string", "filter_arg_wrong_type_enum", "filter_arg_struct", "filter_arg_nil_cmp_lt", "filter_arg_mixed_list", "filter_arg_list_for_lt", "filter_unknown_arg_col", "filter_arg_col_type_mismatch", "filter_arg_col_type_mismatch2", "filter_fn2_without_col", "filter_enum_unknown_value", "filter_bad_regex", "filter_bad_regex_enum", "and_empty", "or_empty", "not_invalid", "nested_invalid", "inverse_invalid", "sort_unknown", "select_unknown", "slice_bad", "copy_unknown", "copy_self_unknown", "apply_copy_self_unknown", "eval_val_unknown_self", "or_all_rows_then_invalid", "or_complement_then_invalid", "and_none_then_invalid", "empty_frame_invalid_filter", "empty_frame_or_invalid_leaf_then_nested", "filtered_out_or_invalid_leaf_then_nested", "empty_frame_or_nested_invalid_then_nested", "or_invalid_leaf_then_nested", "and_nested_then_invalid_on_empty", "not_invalid_on_empty", "empty_frame_invalid_apply", "empty_frame_invalid_sort", "copy_badname", "apply_unknown_src", "apply_unknown_src2", "apply_fn_wrong_type", "apply_fn_wrong_type_string", "apply_fn_wrong_type_enum", "apply_fn0_invalid", "apply_fn0_func_wrong", "apply_fn2_mismatched_cols", "apply_fn2_wrong_fn", "apply_fn2_mismatched_string_enum", "apply_unknown_builtin", "apply_unknown_builtin_int", "apply_unknown_builtin2", "apply_bad_dst", "apply_empty_dst", "apply_copy_unknown", "filteredapply_invalid_clause", "filteredapply_invalid_instr", "eval_unknown_fn", "eval_fn_of_other_ctx", "eval_bad_dst", "distinct_unknown", "rownums_bad_name", "groupby_unknown", "empty_frame_groupby_unknown", "empty_frame_distinct_unknown", "empty_frame_groupby_unknown_agg", "filter_bad_regex_twice", "filter_bad_regex_twice_ilike", "apply_second_after_failed_first", "filteredapply_second_after_failed_first", "new_enum_on_int_column", "new_enum_on_const_bool", "aggregate_unknown_col", "aggregate_unknown_fn", "aggregate_fn_wrong_type", "aggregate_fn_wrong_type_string", "aggregate_fn_wrong_type_enum", "aggregate_on_group_col", "aggregate_duplicate", "aggregate_string_builtin"}
 	register(&Property{
 		ID: "C10", Dirs: []string{"root"},
 		Jobs: func(tier string) []Job {
@@ -510,7 +537,7 @@ func init() {
 			for _, c := range c10cases {
 				jobs = append(jobs, Job{Harness: "VX_C10_invalid", Params: P("case", c)})
 			}
-			jobs = append(jobs, Job{Harness: "VX_C10_views"})
+			jobs = append(jobs, Job{Harness: "VX_C10_views"}, Job{Harness: "VX_C07_ctx"})
 			firsts := []string{"filter_unknown_col", "and_empty", "sort_unknown", "apply_fn0_invalid", "slice_bad", "groupby_unknown"}
 			if tier == "thorough" {
 				firsts = c10cases
@@ -521,7 +548,7 @@ func init() {
 			return jobs
 		},
 		Bounds: func(tier string) string {
-			return "83 misuse cases (incl. misuse on frames without rows and the same malformed pattern used repeatedly) (one invalid argument per call: unknown columns, comparators, function/argument types outside the documented unions, illegal names, bad slice bounds over all ints, empty And/Or, malformed expressions, mismatched column types, invalid aggregations) on a derived frame with one column per type and symbolic cells; sticky-error chains of every chainable operation after 6 (thorough: every) first error"
+			return "90 misuse cases (incl. misuse on frames without rows and the same malformed pattern used repeatedly) (one invalid argument per call: unknown columns, comparators, function/argument types outside the documented unions, illegal names, bad slice bounds over all ints, empty And/Or, malformed expressions, mismatched column types, invalid aggregations) on a derived frame with one column per type and symbolic cells; sticky-error chains of every chainable operation after 6 (thorough: every) first error"
 		},
 		Assume:   []string{"documented panics (Must*View, ItemAt out of range, DivI by zero) are excluded", "a panic on any feasible path is a violation (engine-level obligation)"},
 		Outside:  []string{"two simultaneous misuses in one call", "ReadCSV/ReadJSON/ReadSQL argument misuse (C12, C15)"},
@@ -554,7 +581,14 @@ func c01jobs(tier string, strict bool) []Job {
 	}
 	pairs := []string{"slice,sort", "slice,filter_or", "sort,slice", "filter,apply_fn1", "slice,filter_notand", "sort,sort2", "copy,apply_fn2", "select,copy", "filter,distinct", "slice,qframes", "apply_fn1,eval", "slice_tail,filter", "filter,filter_inv", "slice,aggregate", "sort,filtered_apply", "rownums,sort",
 		"copy,copy_y", "copy,rownums_new", "apply_new,eval_new", "eval_new,copy", "rownums_new,apply_new", "copy,copy_y,apply_new", "sort,aggregate_nokey", "slice,aggregate_nokey", "sort,qframes_aggregate", "filter_promote,sort", "filter_and_all,sort", "slice,filter_and_all", "filter_ilike,filter_ilike", "filter_like_regex,filter_like_regex", "grouper_aggregate,grouper_aggregate", "tosql,tosql"}
+	// the same operation on sibling views of one storage (other row set / row order), first result re-observed
+	for _, x := range []string{"apply_upper", "upper_enum", "apply_fn1", "eval_new", "filtered_apply"} {
+		pairs = append(pairs, x+","+x+"@tail", x+","+x+"@base")
+	}
 	if tier == "thorough" {
+		for _, x := range []string{"distinct", "sort", "filter_or", "aggregate", "apply_const", "copy", "rownums", "eval"} {
+			pairs = append(pairs, x+","+x+"@tail", x+","+x+"@base")
+		}
 		for _, a := range []string{"slice", "sort", "filter", "slice_tail", "copy", "apply_fn1"} {
 			for _, b := range c01ops {
 				pairs = append(pairs, a+","+b)
@@ -571,8 +605,8 @@ func c01jobs(tier string, strict bool) []Job {
 
 func init() {
 	register(&Property{
-		ID: "C01", Dirs: []string{"root"},
-		Jobs:   func(tier string) []Job { return c01jobs(tier, false) },
+		ID: "C01", Dirs: []string{"root", "internal/grouper"},
+		Jobs:   func(tier string) []Job { return append(c01jobs(tier, false), c04bigJobs(tier, false)...) },
 		Bounds: func(tier string) string {
 			if tier == "thorough" {
 				return "family {base (P=5 rows, shared column storage via Copy), f0 = permuted+sliced frame with spare index capacity (n=4), results}; numeric cells symbolic, string/enum cells concrete; every one of 45 operations as single step; 6x27 two-step histories applied both to the newest member and to the shared ancestor; 5 three-step histories; every member re-observed (Len, names, types, Err, every cell through the typed views) after every step"
@@ -584,8 +618,8 @@ func init() {
 		MinReach: []string{"end"}, TVVectors: 1, Solver: "z3-new -in",
 	})
 	register(&Property{
-		ID: "C11", Dirs: []string{"root"}, Level: "other",
-		Jobs:   func(tier string) []Job { return c01jobs(tier, true) },
+		ID: "C11", Dirs: []string{"root", "internal/grouper"}, Level: "other",
+		Jobs:   func(tier string) []Job { return append(c01jobs(tier, true), c04bigJobs(tier, true)...) },
 		Bounds: func(tier string) string {
 			return "same operation set and frame families as C01; obligation per step: the engine's write monitor saw no store (Store, copy, in-place append, map update) into any memory cell reachable from any family member (incl. a Grouper obtained earlier and spare capacity behind slices) or from any package-level variable of tobgu/qframe, no sync.Map/sync.Once mutation (process-wide state), and no load or store of memory reachable from an object after it was handed to sync.Pool.Put"
 		},
